@@ -11,6 +11,8 @@ import Driver.RateLimit
 import Driver.Flow
 import Driver.Supervise
 import Driver.Timeout
+import Driver.SetupParams
+import Driver.Wiring
 /-!
 fbdriver: reads `<id>\t<input>\t<impl observation>` lines on stdin, runs the model of the chosen
 component on `<input>` and prints one verdict line per case:
@@ -37,6 +39,8 @@ def dispatch (comp : String) : Option (String → String → Verdict) :=
   | "supervise" => some Supervisor.check
   | "supervise-C05" => some Supervisor.check
   | "timeout" => some MainLoop.check
+  | "setupparams" => some SetupParams.check
+  | "wiring" => some Wiring.check
   | "flow-C01" => some (ExecTrace.check "C01")
   | "flow-C02" => some (ExecTrace.check "C02")
   | "flow-C03" => some (ExecTrace.check "C03")
